@@ -266,7 +266,17 @@ fn block2(s: &mut ScFull) {
             (asm::tool_call(asm::OP_PROBE, &[asm::word_u64(sc.base), asm::word_u64(k), asm::word_u64(abs)], &[]), sc.base, k, abs)
         };
         let situation = if sc.after_reorg { "after-reorg".to_string() } else { "plain".to_string() };
-        match sc.rng.below(5) {
+        // on a chain that crosses a rule change: a transaction is parked in the last block under the old
+        // rules and drained in the first block under the new ones
+        let act = prague_height(sc.net);
+        let forced = if sc.chain_base > 0 && number + 1 == act && sc.parked.is_none() {
+            Some(3)
+        } else if sc.chain_base > 0 && number == act && sc.parked.is_some() {
+            Some(2)
+        } else {
+            None
+        };
+        match forced.unwrap_or_else(|| sc.rng.below(5)) {
             0 | 1 => {
                 let (data, base, k, abs) = probe(sc);
                 let r = sc.d.exec(Op::Call { pk: sc.pk.clone(), target: Target::Addr(sc.tool.clone()), data: Some(hist::hx(&data)), enc: Enc::Hex, ctx, iid, len: 100_000, txid: txid.clone() });
